@@ -159,6 +159,54 @@ def factory(ns, nkeys=2, pre_entry=True):
     return f
 
 
+def sequential_factory(ns):
+    """a short-lived key signs one envelope and is dropped; a second key, created afterwards, signs another envelope"""
+    def f(eng):
+        import conda_content_trust.signing as S
+        import conda_content_trust.common as C
+        from harness import lemmas
+        from pysym import models
+        ovr = lemmas.overrides(eng)
+
+        def harness(eng):
+            t = T(eng, ns=ns)
+            p = t.payload('p', dict)
+            sks = mk_keys(t, 2)
+            it = Interp(eng, ovr)
+            envA = run_call(it, S.wrap_as_signable, [p])[1]
+            a = run_call(it, S.sign_signable, [envA, sks[0]])
+            models.kill(it, sks[0])
+            if sks[0].pub is not None:
+                models.kill(it, sks[0].pub)
+            envB = run_call(it, S.wrap_as_signable, [p])[1]
+            b = run_call(it, S.sign_signable, [envB, sks[1]])
+            pub1 = run_call(it, C.PublicKey.to_hex, [public_of(it, sks[1])])
+            mk = lambda mm: dict(scenario='sequential', payload=to_wire(conc(mm, p)), seeds=[mm.eval(k.raw.kid, model_completion=True).as_long() for k in sks])
+            obs = []
+            ok = is_ret(a) and is_ret(b) and is_ret(pub1)
+            slots = None
+            if ok:
+                sg = envB['signatures']
+                slots = [sl for sl in sg.slots if not (isinstance(sl[0], bool) and not sl[0])] if isinstance(sg, SDict) else [[True, k, v] for k, v in sg.items()]
+            m_needed = True
+            if not ok or slots is None or len(slots) != 1:
+                obs.append(dict(name='each envelope gets exactly one entry from its signer', status='sat', cex=None))
+            else:
+                obs.append(oblige(eng, "a signature is filed under ITS signer's public key, also when an earlier signer object has been dropped",
+                                  z3.Not(val_eq(it, None, slots[0][1], pub1[1])), mk))
+            m = path_model(eng)
+            if m is None:
+                return None
+            for ob in obs:
+                if ob['status'] == 'sat' and ob.get('cex') is None:
+                    ob['cex'] = mk(m)
+            w = mk(m)
+            w['predicted'] = {'kind': 'ret'}
+            return record(eng, ('ret', None), obs, w, ['two sequential signers'], okey_='sequential')
+        return harness
+    return f
+
+
 # ---------------------------------------------------------------------------
 # concrete side: REAL ed25519
 
@@ -167,7 +215,35 @@ def seed_bytes(n):
     return hashlib.sha256(b'cct-verif-seed-%d' % n).digest()
 
 
+def concrete_sequential(case):
+    import gc
+    import conda_content_trust.signing as S
+    import conda_content_trust.common as C
+    from cryptography.hazmat.primitives.asymmetric import ed25519
+    from cryptography.hazmat.primitives import serialization as Z
+    payload = from_wire(case['payload'])
+    probs = []
+    for rnd in range(24):
+        s0, s1 = seed_bytes(case['seeds'][0] * 1000 + rnd), seed_bytes(case['seeds'][1] * 1000 + rnd + 500)
+        k0 = C.PrivateKey.from_bytes(s0)
+        envA = S.wrap_as_signable(payload)
+        S.sign_signable(envA, k0)
+        del k0
+        gc.collect()
+        k1 = C.PrivateKey.from_bytes(s1)
+        envB = S.wrap_as_signable(payload)
+        S.sign_signable(envB, k1)
+        want = ed25519.Ed25519PrivateKey.from_private_bytes(s1).public_key().public_bytes(Z.Encoding.Raw, Z.PublicFormat.Raw).hex()
+        if list(envB['signatures']) != [want]:
+            probs.append(f'round {rnd}: the second signer\'s signature is filed under {list(envB["signatures"])} instead of its own public key {want}')
+            break
+        del k1
+    return {'outcome': {'kind': 'ret'}, 'problems': probs}
+
+
 def concrete(case):
+    if case.get('scenario') == 'sequential':
+        return concrete_sequential(case)
     import copy
     import conda_content_trust.signing as S
     import conda_content_trust.authentication as A
@@ -246,7 +322,8 @@ def judge(case, obs):
 
 
 def units(tier):
-    return [Unit('roundtrip:2keys', factory('rt2', 2), expect=('verifies', 'two signers'), max_witnesses=40 if tier == 'quick' else 200)]
+    return [Unit('roundtrip:2keys', factory('rt2', 2), expect=('verifies', 'two signers'), max_witnesses=40 if tier == 'quick' else 200),
+            Unit('sequential signers', sequential_factory('sq'), expect=('two sequential signers',), max_witnesses=10)]
 
 
 BOUNDS = dict(payload='an opaque JSON object (token) and a second one for the post-signing edit (equal or different)',
